@@ -1,5 +1,7 @@
 import GcArena.Proofs.CollectLemmas
 import GcArena.Generated.CollectTable
+import GcArena.Proofs.MacroImplsLemmas
+import GcArena.Generated.MacroImpls
 /-!
 # C16 — provided `Collect` impls are exact in every position
 
@@ -109,5 +111,40 @@ open GcArena.CollectTy.Example in
 the key (the short-circuit skips the whole map): `exact`'s hypothesis is not redundant. -/
 example : (mini (hm [1] [0, 1])).complete = false ∧
     traceProvided (mini (hm [1] [0, 1])) keyOnly oneKey = [] ∧ ptrsOf oneKey = [(5, true)] := by decide
+
+/-! ## Impls generated for clients: `dyn_collect!` (and `static_collect!`)
+
+The generic arms of the exported macros are instantiated only by clients; their expansion templates
+are read from the raw source into `GcArena/Generated/MacroImpls.lean`.  A `dyn Trait<'gc, T>` object
+usually owns pointers: its impl forwards `trace` to the value (`DynCollect::dyn_trace`) and must not
+claim `NEEDS_TRACE = false`, or every provided container holding it (`Box`, `Rc`, `Vec<Box<…>>`, …)
+computes its own constant from a wrong leaf and `Trace::trace` skips the whole sub-tree. -/
+
+/-- Every arm of `dyn_collect!` in the current source forwards `trace` to the value and leaves
+`NEEDS_TRACE` at its default (`true`); every arm of every exported impl-generating macro was found,
+classified and satisfies the template rule ("impls that claim no tracing is needed exist only for
+types that cannot contain arena pointers"). -/
+theorem dyn_collect_templates_ok :
+    Generated.macroImplsUnclassified = [] ∧
+    (Generated.macroImpls.filter (fun t => t.macroName == "__dyn_collect")).length = 2 ∧
+    (Generated.macroImpls.filter (fun t => t.macroName == "__dyn_collect")).all
+      (fun t => t.ok && t.trace == .forwardsDyn && t.needsTraceValue == some true) = true ∧
+    Generated.macroImpls.all MacroImpls.Template.ok = true := by decide
+
+/-- What the rule buys: a generated impl that is usable at a generative brand for a type mentioning
+the brand reports through the value's own `trace` and has `NEEDS_TRACE = true`. -/
+theorem template_impl_traces (t : MacroImpls.Template) (h : t.ok = true) (i : MacroImpls.Inst)
+    (hb : i.brandFree = false) (hg : t.brandGeneric i = true) :
+    t.reportsNothing = false ∧ t.needsTraceValue = some true := by
+  rcases MacroImpls.ok_sound t h i hb with h1 | h1
+  · rw [hg] at h1; cases h1
+  · exact h1
+
+/-- The seeded change (`const NEEDS_TRACE: bool = false;` added to the generic arm of
+`dyn_collect!`) is rejected by the rule, the crate's arm is accepted. -/
+theorem dyn_collect_mutant_witness :
+    MacroImpls.Example.dynCollectArm0.ok = true ∧
+    MacroImpls.Example.dynCollectArm0Mutant.ok = false ∧
+    MacroImpls.Example.dynCollectArm0Mutant.needsTraceValue = some false := by decide
 
 end GcArena.C16
